@@ -34,7 +34,9 @@ fn class_code(c: StunClass) -> u64 {
 }
 
 fn call_stun(b: &[u8]) -> String {
-    match StunMessage::decode(b) {
+    let r = StunMessage::decode(b);
+    super::mark_alloc();
+    match r {
         Ok(d) => {
             let mut v = vec![method_code(d.method), class_code(d.class), fold_bytes(&d.transaction_id)];
             addr_digest(&d.xor_mapped_address, &mut v);
@@ -54,6 +56,7 @@ fn call_stun(b: &[u8]) -> String {
 fn call_stunmi(b: &[u8]) -> String {
     // key = the one `gen_stun` signs with when it signs; outcome class only
     let _ = verify_message_integrity(b, &MI_KEY);
+    super::mark_alloc();
     "ok ".into()
 }
 const MI_KEY: [u8; 16] = [7; 16];
@@ -67,11 +70,37 @@ fn gen_stun_mi(rng: &mut Rng) -> Vec<u8> {
     assert!(verify_message_integrity(&v, &MI_KEY), "genuine MESSAGE-INTEGRITY verifies");
     v
 }
+/// hand-framed Binding requests whose MESSAGE-INTEGRITY (type 8) declares every interesting length and sits at every
+/// position including the very end of the message (so that fewer than 20 bytes follow its TLV header), optionally
+/// followed only by FINGERPRINT; `ufrag` is the USERNAME prefix (the live agent's own ufrag, or a foreign one)
+pub fn mi_framed(rng: &mut Rng, ufrag: &str) -> Vec<Vec<u8>> {
+    let mut out = vec![];
+    for mi_len in [0u16, 1, 4, 8, 12, 16, 19, 20, 21, 24] {
+        for present in [0usize, 1, 4, mi_len as usize, 20, 24] {       // bytes actually present after the MI header
+            for pos in 0..3 {                                           // MI first / after USERNAME / after USERNAME+PRIORITY
+                for tail in 0..2 {                                      // nothing after it, or a FINGERPRINT
+                    let mut v = vec![0u8, 1, 0, 0, 0x21, 0x12, 0xA4, 0x42]; v.extend(rng.bytes(12));
+                    let user = format!("{ufrag}:peer");
+                    if pos >= 1 { tlv(&mut v, 0x0006, user.as_bytes()); }
+                    if pos >= 2 { tlv(&mut v, 0x0024, &[0, 0, 1, 0]); }
+                    v.extend_from_slice(&[0, 8]); v.extend_from_slice(&mi_len.to_be_bytes()); v.extend(std::iter::repeat(0x5A).take(present));
+                    if pos == 0 { while v.len() % 4 != 0 { v.push(0); } tlv(&mut v, 0x0006, user.as_bytes()); }
+                    if tail == 1 { while v.len() % 4 != 0 { v.push(0); } tlv(&mut v, 0x8028, &[1, 2, 3, 4]); }
+                    let l = (v.len() - 20) as u16; v[2..4].copy_from_slice(&l.to_be_bytes());
+                    out.push(v);
+                }
+            }
+        }
+    }
+    out
+}
 fn call_ufrag(b: &[u8]) -> String {
-    match rustrtc::verif_hooks::decoders::peer_ufrag_from_binding_request(b) { None => "ok none".into(), Some(s) => format!("ok some {}", hex(s.as_bytes())) }
+    let r = rustrtc::verif_hooks::decoders::peer_ufrag_from_binding_request(b); super::mark_alloc();
+    match r { None => "ok none".into(), Some(s) => format!("ok some {}", hex(s.as_bytes())) }
 }
 fn call_uname(b: &[u8]) -> String {
-    match rustrtc::verif_hooks::decoders::username_from_stun_bytes(b) { None => "ok none".into(), Some(s) => format!("ok some {}", hex(s.as_bytes())) }
+    let r = rustrtc::verif_hooks::decoders::username_from_stun_bytes(b); super::mark_alloc();
+    match r { None => "ok none".into(), Some(s) => format!("ok some {}", hex(s.as_bytes())) }
 }
 
 fn gen_addr(rng: &mut Rng) -> SocketAddr {
@@ -131,6 +160,74 @@ pub fn gen_stun(rng: &mut Rng) -> Vec<u8> {
     }
     v
 }
+/// a TURN server's response as the client code expects it — and as it does not: Allocate / CreatePermission success and
+/// error responses with ERROR-CODE 401/438/other, REALM / NONCE present, absent, empty or not UTF-8, XOR-RELAYED-ADDRESS of
+/// both families or cut short, LIFETIME 0 / huge / 3 bytes, trailing unknown attributes, truncation. The transaction id
+/// (bytes 8..20) is overwritten with the request's by the fake server unless byte 8 is 0xEE.
+fn gen_turn_resp(rng: &mut Rng, method: u16) -> Vec<u8> {
+    if rng.chance(1, 12) { let mut g = gen_stun(rng); if g.len() > 8 && rng.chance(1, 2) { g[8] = 0xEE; } return g; }
+    let tid = rng.bytes(12);
+    let m = if rng.chance(1, 10) { *rng.pick(&[0x001u16, 0x003, 0x004, 0x008, 0x009]) } else { method };
+    let class_bits: u16 = match rng.below(10) { 0..=3 => 0x0100, 4..=8 => 0x0110, _ => *rng.pick(&[0x0000u16, 0x0010]) };
+    let mut v = vec![]; v.extend_from_slice(&(m | class_bits).to_be_bytes()); v.extend_from_slice(&[0, 0, 0x21, 0x12, 0xA4, 0x42]); v.extend_from_slice(&tid);
+    if rng.chance(1, 12) { v[8] = 0xEE; }
+    for _ in 0..rng.range(0, 5) {
+        match rng.below(9) {
+            0 | 1 => { let (c, n) = *rng.pick(&[(4u8, 1u8), (4, 1), (4, 38), (4, 0), (4, 37), (3, 0), (6, 99), (7, 255), (0, 0)]); let mut e = vec![0, 0, c, n]; e.extend(gen_str(rng, 12).bytes()); tlv(&mut v, 0x0009, &e) }
+            2 => { let n = rng.below(4) as usize; tlv(&mut v, 0x0009, &rng.bytes(n)) }
+            3 => match rng.below(4) { 0 => tlv(&mut v, 0x0014, &[]), 1 => tlv(&mut v, 0x0014, &[0xff, 0xfe, 0x41]), _ => tlv(&mut v, 0x0014, gen_str(rng, 130).as_bytes()) },
+            4 => match rng.below(4) { 0 => tlv(&mut v, 0x0015, &[]), 1 => tlv(&mut v, 0x0015, &[0xc3]), _ => tlv(&mut v, 0x0015, gen_str(rng, 130).as_bytes()) },
+            5 => { let a = gen_addr(rng); let mut x = xor_addr_value(a, &tid); if rng.chance(1, 4) { let n = x.len(); x.truncate(rng.below(n as u64 + 1) as usize); } if rng.chance(1, 8) && x.len() > 1 { x[1] = rng.next() as u8; } tlv(&mut v, 0x0016, &x) }
+            6 => match rng.below(3) { 0 => tlv(&mut v, 0x000D, &[0, 0, 0, 0]), 1 => tlv(&mut v, 0x000D, &[0xff; 4]), _ => { let n = rng.below(6) as usize; tlv(&mut v, 0x000D, &rng.bytes(n)) } },
+            7 => tlv(&mut v, 0x0008, &rng.bytes(20)),
+            _ => { let t = rng.next() as u16; let n = rng.below(9) as usize; tlv(&mut v, t, &rng.bytes(n)) }
+        }
+    }
+    let l = (v.len() - 20) as u16; v[2..4].copy_from_slice(&l.to_be_bytes());
+    if rng.chance(1, 10) { let n = v.len(); v.truncate(rng.below(n as u64 + 1) as usize); }
+    if rng.chance(1, 20) && v.len() >= 4 { v[2..4].copy_from_slice(&(rng.next() as u16).to_be_bytes()); }
+    v
+}
+
+/// oracle-only stream `turnclient`: the TURN client's request/response exchanges (`allocate`, then `create_permission`)
+/// against a fake server on a loopback UDP socket that answers each request with the next scripted response.
+/// `auth`: the client already holds long-term credentials (as after an earlier allocation).
+pub fn run_turnclient(run: &mut Run, live: &Live, op: u8, auth: bool, script: &[Vec<u8>], nt: bool) {
+    let l = std::panic::AssertUnwindSafe(live);
+    let sc: Vec<Vec<u8>> = script.to_vec();
+    let total: u64 = script.iter().map(|x| x.len() as u64).sum();
+    let input = format!("{op} {} {}", auth as u8, script.iter().map(|x| if x.is_empty() { "-".to_string() } else { hex(x) }).collect::<Vec<_>>().join(" "));
+    exec(run, "turnclient", &input, "TurnClient::allocate/create_permission", nt, Some((64, 16384, total)), move || {
+        l.rt.block_on(async {
+            let client_sock = Arc::new(tokio::net::UdpSocket::bind("127.0.0.1:0").await.expect("bind"));
+            let server = tokio::net::UdpSocket::bind("127.0.0.1:0").await.expect("bind");
+            let server_addr = server.local_addr().unwrap();
+            let turn = TurnClient::verif_new_udp(client_sock, server_addr);
+            if auth { turn.verif_set_auth("user", "pass", "realm", "nonce"); }
+            let srv = tokio::spawn(async move {
+                let mut buf = [0u8; 2048];
+                let mut it = sc.into_iter();
+                // script exhausted: a plain 400 error ends the exchange (the client's own receive timeout is seconds long)
+                loop {
+                    let Ok((n, from)) = server.recv_from(&mut buf).await else { break };
+                    let mut resp = it.next().unwrap_or_else(|| { let t = u16::from_be_bytes([buf[0], buf[1]]) | 0x0110; let mut v = t.to_be_bytes().to_vec(); v.extend_from_slice(&[0, 8, 0x21, 0x12, 0xA4, 0x42]); v.extend_from_slice(&[0; 12]); v.extend_from_slice(&[0, 9, 0, 4, 0, 0, 4, 0]); v });
+                    if n >= 20 && resp.len() >= 20 && resp[8] != 0xEE { resp[8..20].copy_from_slice(&buf[8..20]); }
+                    let _ = server.send_to(&resp, from).await;
+                }
+            });
+            let fut = async {
+                if op == 0 { let _ = turn.verif_allocate("user", "pass").await; if turn.verif_auth_key().is_some() { let _ = turn.verif_create_permission("127.0.0.1:9".parse().unwrap()).await; } }
+                else { let _ = turn.verif_create_permission("127.0.0.1:9".parse().unwrap()).await; }
+            };
+            let timed_out = tokio::time::timeout(std::time::Duration::from_secs(15), fut).await.is_err();
+            srv.abort();
+            let _ = srv.await;
+            if timed_out { panic!("TURN exchange did not end within 15 s"); }
+        });
+        "noncompared".into()
+    });
+}
+
 fn gen_binding_req(rng: &mut Rng) -> Vec<u8> {
     if rng.chance(1, 4) { return gen_stun(rng); }
     let mut tid = [0u8; 12]; tid.copy_from_slice(&rng.bytes(12));
@@ -143,10 +240,10 @@ fn gen_binding_req(rng: &mut Rng) -> Vec<u8> {
 
 pub fn targets() -> Vec<Target> {
     vec![
-        Target { stream: "stun", entry: "StunMessage::decode", call: call_stun, valid: gen_stun, alloc: Some((1, 64)), weight: 3 },
-        Target { stream: "stunmi", entry: "verify_message_integrity", call: call_stunmi, valid: gen_stun_mi, alloc: Some((1, 64)), weight: 1 },
-        Target { stream: "ufrag", entry: "peer_ufrag_from_binding_request", call: call_ufrag, valid: gen_binding_req, alloc: Some((2, 64)), weight: 1 },
-        Target { stream: "uname", entry: "username_from_stun_bytes", call: call_uname, valid: gen_binding_req, alloc: Some((1, 64)), weight: 1 },
+        Target { stream: "stun", entry: "StunMessage::decode", call: call_stun, valid: gen_stun, alloc: Some((1, 0)), weight: 3 },
+        Target { stream: "stunmi", entry: "verify_message_integrity", call: call_stunmi, valid: gen_stun_mi, alloc: Some((1, 20)), weight: 1 },
+        Target { stream: "ufrag", entry: "peer_ufrag_from_binding_request", call: call_ufrag, valid: gen_binding_req, alloc: Some((2, 0)), weight: 1 },
+        Target { stream: "uname", entry: "username_from_stun_bytes", call: call_uname, valid: gen_binding_req, alloc: Some((1, 0)), weight: 1 },
     ]
 }
 
@@ -171,12 +268,18 @@ pub struct Live {
 pub const BOUND_CHANNEL: u16 = 0x4001;
 
 impl Live {
-    pub fn new() -> Self {
+    pub fn new() -> Self { Self::with(0, true, None) }
+    /// `mode`: 0 WebRTC, 1 SRTP(SDES), 2 plain RTP; `receiver`: a data receiver is installed (otherwise media is
+    /// buffered); `state`: ICE transport state forced through the hook
+    pub fn with(mode: u8, receiver: bool, state: Option<rustrtc::transports::ice::IceTransportState>) -> Self {
         let rt = tokio::runtime::Builder::new_current_thread().enable_all().build().unwrap();
         let (ice, rec, sock, sink, turn, peer) = rt.block_on(async {
-            let (ice, _runner) = IceTransport::new(rustrtc::RtcConfiguration::default());
+            let mut cfg = rustrtc::RtcConfiguration::default();
+            cfg.transport_mode = match mode { 1 => rustrtc::TransportMode::Srtp, 2 => rustrtc::TransportMode::Rtp, _ => rustrtc::TransportMode::WebRtc };
+            let (ice, _runner) = IceTransport::new(cfg);
             let rec = Arc::new(Rec(Mutex::new(vec![])));
-            ice.set_data_receiver(rec.clone()).await;
+            if receiver { ice.set_data_receiver(rec.clone()).await; }
+            if let Some(st) = state { ice.verif_set_state(st); }
             let sock = Arc::new(tokio::net::UdpSocket::bind("127.0.0.1:0").await.unwrap());
             let sink_sock = tokio::net::UdpSocket::bind("127.0.0.1:0").await.unwrap();
             let sink = sink_sock.local_addr().unwrap();
@@ -213,25 +316,23 @@ pub fn run_turnpkt(run: &mut Run, live: &Live, pkt: &[u8], nt: bool) {
     });
 }
 
-/// one TURN/TCP frame read over a real loopback connection: header says `len`, `provided` body bytes follow, then EOF
-pub fn run_turntcp(run: &mut Run, live: &Live, buf_len: usize, len: u16, provided: usize, nt: bool) {
+/// one TURN/TCP message read over a real loopback connection: the server side writes `stream` and closes
+pub fn run_turntcp(run: &mut Run, live: &Live, buf_len: usize, stream: &[u8], nt: bool) {
     let l = std::panic::AssertUnwindSafe(live);
-    exec(run, "turntcp", &format!("{buf_len} {len} {provided}"), "TurnClient::recv", nt, None, move || {
+    let data = stream.to_vec();
+    exec(run, "turntcp", &format!("{buf_len} {}", hex(stream)), "TurnClient::recv", nt, None, move || {
         l.rt.block_on(async {
             use tokio::io::AsyncWriteExt;
             let lis = tokio::net::TcpListener::bind("127.0.0.1:0").await.unwrap();
             let addr = lis.local_addr().unwrap();
             let writer = tokio::spawn(async move {
                 let (mut s, _) = lis.accept().await.unwrap();
-                let mut frame = len.to_be_bytes().to_vec();
-                frame.extend(std::iter::repeat(0x5a).take(provided));
-                let _ = s.write_all(&frame).await;
+                let _ = s.write_all(&data).await;
                 let _ = s.shutdown().await;
             });
             let stream = tokio::net::TcpStream::connect(addr).await.unwrap();
             let client = TurnClient::verif_new_tcp(stream);
             let mut buf = vec![0u8; buf_len];
-            // a panic inside `recv` must surface to `exec`: run on this task
             let r = client.verif_recv(&mut buf).await;
             let _ = writer.await;
             match r { Ok(n) => format!("ok {n}"), Err(e) => anyhow_text(&e) }
@@ -239,11 +340,35 @@ pub fn run_turntcp(run: &mut Run, live: &Live, buf_len: usize, len: u16, provide
     });
 }
 
+/// RFC 4571 framing of `IceSocketWrapper::TcpStream(..).recv_from` over a real loopback connection
+pub fn run_tcp4571(run: &mut Run, live: &Live, buf_len: usize, stream: &[u8], nt: bool) {
+    let l = std::panic::AssertUnwindSafe(live);
+    let data = stream.to_vec();
+    exec(run, "tcp4571", &format!("{buf_len} {}", hex(stream)), "IceSocketWrapper::recv_from(tcp)", nt, None, move || {
+        l.rt.block_on(async {
+            use tokio::io::AsyncWriteExt;
+            let lis = tokio::net::TcpListener::bind("127.0.0.1:0").await.unwrap();
+            let addr = lis.local_addr().unwrap();
+            let writer = tokio::spawn(async move { let (mut s, _) = lis.accept().await.unwrap(); let _ = s.write_all(&data).await; let _ = s.shutdown().await; });
+            let stream = tokio::net::TcpStream::connect(addr).await.unwrap();
+            let (r, w) = stream.into_split();
+            let wrapper = rustrtc::transports::ice::IceSocketWrapper::TcpStream(Arc::new(tokio::sync::Mutex::new(r)), Arc::new(tokio::sync::Mutex::new(w)), addr);
+            let mut buf = vec![0u8; buf_len];
+            let r = wrapper.recv_from(&mut buf).await;
+            let _ = writer.await;
+            match r { Ok((n, _)) => format!("ok {n}"), Err(e) => { let t = e.to_string(); if t.starts_with("TCP STUN message too large") { "err TCP_STUN_message_too_large".into() } else { anyhow_text(&e) } } }
+        })
+    });
+}
+
 fn run_rtx(run: &mut Run, payload: &[u8], nt: bool) {
     let p = payload.to_vec();
-    exec(run, "rtx", &hex(payload), "unwrap_rtx_packet", nt, Some((0, 256, 0)), move || {
+    exec(run, "rtx", &hex(payload), "unwrap_rtx_packet", nt, Some((0, 0, 0)), move || {
         let pkt = rustrtc::rtp::RtpPacket::new(rustrtc::rtp::RtpHeader::new(97, 5, 6, 7), p);
-        match rustrtc::rtx::unwrap_rtx_packet(&pkt, 1234, 96) {
+        super::start_alloc();
+        let r = rustrtc::rtx::unwrap_rtx_packet(&pkt, 1234, 96);
+        super::mark_alloc();
+        match r {
             None => "ok none".into(),
             Some(o) => { assert_eq!(rustrtc::rtx::decode_osn(&pkt.payload), Some(o.header.sequence_number)); format!("ok {} {}", o.header.sequence_number, o.payload.len()) }
         }
@@ -273,6 +398,34 @@ fn gen_inner(rng: &mut Rng) -> Vec<u8> {
 
 pub fn special(run: &mut Run, rng: &mut Rng, thorough: bool) {
     {
+        let live = Live::new();
+        // the canonical exchange: 401 with REALM + NONCE, then success with a relayed address; then the same without REALM / NONCE
+        let tid = [0u8; 12];
+        let mk = |class: u16, method: u16, attrs: &[(u16, Vec<u8>)]| { let mut v = (method | class).to_be_bytes().to_vec(); v.extend_from_slice(&[0, 0, 0x21, 0x12, 0xA4, 0x42]); v.extend_from_slice(&tid);
+            for (t, a) in attrs { tlv(&mut v, *t, a); } let l = (v.len() - 20) as u16; v[2..4].copy_from_slice(&l.to_be_bytes()); v };
+        let relayed = xor_addr_value("10.0.0.1:5000".parse().unwrap(), &tid);
+        for code in [(4u8, 1u8), (4, 38)] { for (realm, nonce) in [(true, true), (false, true), (true, false), (false, false)] {
+            let mut at = vec![(0x0009u16, vec![0, 0, code.0, code.1, b'x'])];
+            if realm { at.push((0x0014, b"realm".to_vec())); } if nonce { at.push((0x0015, b"nonce".to_vec())); }
+            let e401 = mk(0x0110, 0x003, &at);
+            let ok = mk(0x0100, 0x003, &[(0x0016, relayed.clone()), (0x000D, vec![0, 0, 2, 88])]);
+            let mut atp = at.clone(); atp[0].1[3] = code.1;
+            let p401 = mk(0x0110, 0x008, &atp);
+            let pok = mk(0x0100, 0x008, &[]);
+            run_turnclient(run, &live, 0, false, &[e401.clone(), ok.clone(), p401.clone(), pok.clone()], true);
+            run_turnclient(run, &live, 1, true, &[p401.clone(), pok.clone()], true);
+            run_turnclient(run, &live, 1, true, &[p401.clone(), p401.clone(), p401], true);
+            run_turnclient(run, &live, 0, false, &[e401.clone(), e401.clone(), e401], true);
+        } }
+        run_turnclient(run, &live, 0, false, &[vec![], vec![1], vec![0; 20]], true);
+        for _ in 0..(if thorough { 20_000 } else { 700 }) {
+            let op = rng.below(3) as u8 % 2;
+            let auth = op == 1 || rng.chance(1, 3);
+            let sc: Vec<Vec<u8>> = (0..rng.range(1, 6)).map(|i| gen_turn_resp(rng, if op == 1 || i >= 2 { 0x008 } else { 0x003 })).collect();
+            run_turnclient(run, &live, op, auth, &sc, true);
+        }
+    }
+    {
         // framed truncations: attributes cut at every length with the STUN length field adjusted
         let ts = targets();
         for _ in 0..(if thorough { 3_000 } else { 150 }) {
@@ -291,6 +444,37 @@ pub fn special(run: &mut Run, rng: &mut Rng, thorough: bool) {
         }
     }
     let live = Live::new();
+    {
+        // MESSAGE-INTEGRITY framing: the direct verifier and the live agent (the verifier runs only for our own ufrag)
+        let own = live.ice.local_parameters().username_fragment;
+        let ts = targets();
+        for ufrag in [own.as_str(), "zzzz"] {
+            for m in mi_framed(rng, ufrag) {
+                super::run_bytes(run, &ts[1], &m, true);
+                run_hpkt(run, &live, &m, true);
+                run_turnpkt(run, &live, &m, true);
+            }
+        }
+    }
+    // other agent configurations: plain-RTP mode in state Connected (every request counts as authenticated and a new
+    // source becomes a remote candidate), SDES mode while Checking, and WebRTC without a data receiver (media is buffered)
+    {
+        use rustrtc::transports::ice::IceTransportState as S;
+        for (mode, recv, st) in [(2u8, true, Some(S::Connected)), (1, true, Some(S::Checking)), (0, false, Some(S::Checking)), (0, true, Some(S::Closed))] {
+            let l2 = Live::with(mode, recv, st);
+            let own = l2.ice.local_parameters().username_fragment;
+            run_hpkt(run, &l2, &[], true);
+            for _ in 0..(if thorough { 3_000 } else { 150 }) {
+                let p = match rng.below(4) { 0 => { let m = mi_framed(rng, &own); rng.pick(&m).clone() } 1 => gen_binding_req(rng), _ => gen_inner(rng) };
+                if recv { run_hpkt(run, &l2, &p, true); run_turnpkt(run, &l2, &p, true); }
+                else {
+                    // no receiver: the model's `fwd` cases are buffered instead — compare nothing, keep the oracles
+                    let pp = p.clone(); let lr = std::panic::AssertUnwindSafe(&l2);
+                    exec(run, "hpktbuf", &hex(&p), "ice::handle_packet(buffering)", true, None, move || { lr.rt.block_on(lr.ice.verif_handle_packet(&pp, lr.sink, rustrtc::transports::ice::IceSocketWrapper::Udp(lr.sock.clone()))); "noncompared".into() });
+                }
+            }
+        }
+    }
     // handle_packet: empty, every 1-byte datagram, valid STUN / DTLS-ish / RTP, mutations
     run_hpkt(run, &live, &[], true);
     for a in 0..=255u8 { run_hpkt(run, &live, &[a], false); }
@@ -323,18 +507,36 @@ pub fn special(run: &mut Run, rng: &mut Rng, thorough: bool) {
         run_turnpkt(run, &live, &p, true);
         if rng.chance(1, 4) && !p.is_empty() { let k = rng.below(p.len() as u64) as usize; run_turnpkt(run, &live, &p[..k], true); }
     }
-    // TURN/TCP frames: lengths around the receive buffer, truncated bodies
-    for (bl, len) in [(1500usize, 0u16), (1500, 1), (1500, 1499), (1500, 1500), (1500, 1501), (1500, 65535), (16, 16), (16, 17), (0, 0), (0, 1)] {
-        for prov in [len as usize, (len as usize).saturating_sub(1), 0] {
-            run_turntcp(run, &live, bl, len, prov, true);
+    // TURN/TCP messages: STUN / ChannelData headers with lengths around the receive buffer, truncated streams
+    for bl in [1500usize, 24, 20, 8, 4, 3, 0] {
+        for h0 in [0x00u8, 0x01, 0x40, 0x41, 0x7F, 0x80, 0xC0] {
+            for body in [0u16, 1, 3, 4, 5, (bl as u16).wrapping_sub(20), (bl as u16).wrapping_sub(19), (bl as u16).wrapping_sub(4), (bl as u16).wrapping_sub(3), 1476, 1480, 1481, 1496, 1497, 65535] {
+                let on_wire = if h0 & 0xC0 == 0x40 { 4 + (body as usize).div_ceil(4) * 4 } else { 20 + body as usize };
+                for prov in [on_wire, on_wire.saturating_sub(1), 4, 3, 0] {
+                    let mut st = vec![h0, 1]; st.extend_from_slice(&body.to_be_bytes()); st.extend(std::iter::repeat(0x5a).take(on_wire.saturating_sub(4)));
+                    st.truncate(prov.min(st.len()));
+                    if st.len() <= 3000 { run_turntcp(run, &live, bl, &st, true); }
+                }
+            }
         }
     }
     for _ in 0..(if thorough { 3_000 } else { 200 }) {
         let bl = *rng.pick(&[1500usize, 1500, 64, 2048]);
-        let len = match rng.below(4) { 0 => rng.range(0, bl as u64 + 2), 1 => rng.range(0, 65535), _ => rng.range(0, 200) } as u16;
-        let prov = if rng.chance(2, 3) { len as usize } else { rng.below(len as u64 + 1) as usize };
-        run_turntcp(run, &live, bl, len, prov, true);
+        let inner = if rng.chance(1, 2) { gen_stun(rng) } else { let n = rng.below(60) as usize; channel_data(0x4001, n as u16, &rng.bytes(n.div_ceil(4) * 4)) };
+        let mut st = inner; if rng.chance(1, 3) { let k = rng.below(st.len() as u64 + 1) as usize; st.truncate(k); } if rng.chance(1, 3) { st.extend(rng.bytes(7)); }
+        run_turntcp(run, &live, bl, &st, true);
     }
+    for bl in [1500usize, 8, 2, 1, 0] {
+        for len in [0u16, 1, 2, 7, 8, 9, 1499, 1500, 1501, 65535] {
+            for prov in [len as usize, (len as usize).saturating_sub(1), 0] {
+                if prov > 3000 { continue; }
+                let mut st = len.to_be_bytes().to_vec(); st.extend(std::iter::repeat(0x33).take(prov));
+                run_tcp4571(run, &live, bl, &st, true);
+                run_tcp4571(run, &live, bl, &st[..1.min(st.len())], true);
+            }
+        }
+    }
+    run_tcp4571(run, &live, 1500, &[], true);
     // RTX unwrap
     run_rtx(run, &[], false);
     for a in 0..=255u8 { run_rtx(run, &[a], false); }
@@ -346,8 +548,10 @@ pub fn replay_special(run: &mut Run, stream: &str, a: &[&str]) -> bool {
     match (stream, a.len()) {
         ("hpkt", 1) => { let l = Live::new(); run_hpkt(run, &l, &unhex(a[0]), true) }
         ("turnpkt", 2) => { let l = Live::new(); run_turnpkt(run, &l, &unhex(a[1]), true) }
-        ("turntcp", 3) => { let l = Live::new(); run_turntcp(run, &l, p(a[0]) as usize, p(a[1]) as u16, p(a[2]) as usize, true) }
+        ("tcp4571", 2) => { let l = Live::new(); run_tcp4571(run, &l, p(a[0]) as usize, &unhex(a[1]), true) }
+        ("turntcp", 2) => { let l = Live::new(); run_turntcp(run, &l, p(a[0]) as usize, &unhex(a[1]), true) }
         ("rtx", 1) => run_rtx(run, &unhex(a[0]), true),
+        ("turnclient", n) if n >= 2 => { let l = Live::new(); let sc: Vec<Vec<u8>> = a[2..].iter().map(|x| if *x == "-" { vec![] } else { unhex(x) }).collect(); run_turnclient(run, &l, p(a[0]) as u8, a[1] == "1", &sc, true) }
         _ => return false,
     }
     true
